@@ -1283,7 +1283,7 @@ func midCall(r *vh.Run, kinds []kit.Kind, reps int) {
 		if res.exercised {
 			exercised[res.class]++
 			r.Count("midcall_cases_conforming", 1)
-			fam := jobs[i].family
+			fam := "midcall" // one sample for the family: the evidence file keeps six samples, one per scenario family
 			if !sampled[fam] && res.sample != nil && (jobs[i].class == "unreg-self" || jobs[i].class == "register+call") {
 				sampled[fam] = true
 				r.Sample(res.sample)
